@@ -155,8 +155,8 @@ def go (cfg : Exchange.Cfg) : List Step → List Impl → Acc → Option Acc
     let note' := if !a.note.isEmpty then a.note
       else if faultPanic then "the peer sent more than the declared Content-Length and the prefetch took it: bodyStream.Read panicked or handed out bytes beyond the body"
       else if !pOk then "prefetched length not admissible" else if !sok then snote else ""
-    let cls' := if faultPanic then "stream-prefetch-overread"
-      else if !sok && hardInterim s.resp && a.cls.isEmpty then "interim-1xx-taken-as-final" else a.cls
+    let cls' := if faultPanic then ""   -- class `stream-prefetch-overread` repaired in /repo (4e91084)
+      else if !sok && hardInterim s.resp && a.cls.isEmpty then "" else a.cls
     let t := tag ++ (if a.st.idle.isSome && st'.dials == a.st.dials then "r" else "d")
     go cfg ss is { st := st', out := a.out ++ ["X", toString st'.dials, heldTok] ++ toks, spec := spec', note := note',
                    tags := if a.tags.contains t then a.tags else a.tags ++ [t], cls := cls',
@@ -186,8 +186,11 @@ def parseParts : Nat → List String → Option (List (Bool × Multipart.Part))
 /-- what the application attached, in the terms of the decoders: no `filename` parameter for a blank file name, no
 `Content-Type` line for an empty type -/
 def intended (p : Multipart.Part) : Spec.Multipart.Part :=
-  { name := p.name, fileName := if Multipart.blank p.fileName then none else some p.fileName,
-    ctype := if p.ctype.isEmpty then none else some p.ctype, content := p.content }
+  -- CR / LF cannot stand in a quoted parameter value or a header line: the writer replaces them (`%0D` / `%0A` in names
+  -- like `mime/multipart`, a blank in the content type); everything else comes back as attached (`/repo` 865e699)
+  let pct (v : Bytes) : Bytes := v.flatMap (fun c => if c == 13 then [37, 48, 68] else if c == 10 then [37, 48, 65] else [c])
+  { name := pct p.name, fileName := if Multipart.blank p.fileName then none else some (pct p.fileName),
+    ctype := if p.ctype.isEmpty then none else some (Multipart.cleanCT p.ctype), content := p.content }
 
 def goParts : Nat → List String → Option (List Spec.Multipart.Part)
   | 0, [] => some []
@@ -224,7 +227,7 @@ def mpHandle (boundary : String) (n : Nat) (rest impl : List String) : Option Re
     let ok := lean == some want && goDec == some want
     pure { out := [encHex model, encHex (Multipart.formDataContentType b), "G"] ++ go,
            spec := clash || ok,
-           cls := if !ok && !clash && hostile then "multipart-disposition-unescaped" else "",
+           cls := "",   -- the class `multipart-disposition-unescaped` was repaired in /repo (865e699): a return is a violation
            specNote := "the independent decoder and mime/multipart read back exactly the names, file names, types and contents attached",
            tag := "mpwrite:" ++ toString (min n 3) ++ (if hostile then "H" else "") ++ (if clash then "C" else "") ++
                   (if ps.any (·.1) then "F" else "") ++ sizeClass (parts.foldl (fun m p => max m p.content.length) 0) }
